@@ -2,10 +2,12 @@
 C15 driver. Requests (floats as 16 hex digits, matrices `[x,y;x,y;…]`):
   pipf  <atol> <polygon> <points> <insideLen | -1>   Float model of gutils.points_inside_polygon
         -> `ok 0110…` | `err <name>`
+  pipcall <atol> <polyWidth> <polygon> <ptsWidth> <points> <insideLen | -1> <insideIsInt32 0|1>
+        the whole call with its shape / dtype guards (pairs = first two columns) -> as pipf
   pipq  <atol> <polygon> <points>                    the same inputs converted exactly to Rat:
         -> `ok <model> <evenOdd> <evenOddLeft> <evenOddLe>` (four 0/1 strings) | `err <name>`
   cells <nrows> <ncols> <xll> <yll> <csz> <atolDefault> <polygon>   Float model of Grid.cells_inside_polygon
-        -> `ok [cells]` | `err <name>`
+        -> `ok [cells] [x:y:cell,…]` (cell list and returned table) | `err <name>`
   centres <nrows> <ncols> <xll> <yll> <csz>          Float cell centres -> `[x,y;…]`
 -/
 import HydroVerif.Proto
@@ -16,6 +18,7 @@ local instance : NatCast Float := ⟨Float.ofNat⟩
 
 def errName : Err → String
   | .emptyPolygon => "emptyPolygon" | .insideLength => "insideLength"
+  | .insideDtype => "insideDtype" | .shapeAssert => "shapeAssert"
 
 /-- exact value of a finite double -/
 def ratOfFloat (f : Float) : Rat :=
@@ -43,10 +46,18 @@ def handle (toks : List String) : String :=
   | ["pipf", atol, poly, pts, ilen] =>
     match floatTok? atol, (parseFloatMat? poly).bind pairs?, (parseFloatMat? pts).bind pairs?, ilen.toInt? with
     | some atol, some poly, some pts, some ilen =>
-      match pointsInsidePolygon atol pts poly (if ilen < 0 then none else some ilen.toNat) with
+      match pointsInsidePolygonCall atol 2 pts 2 poly (if ilen < 0 then none else some (true, ilen.toNat)) with
       | .ok l => "ok " ++ bits l
       | .error e => "err " ++ errName e
     | _, _, _, _ => "bad-op"
+  | ["pipcall", atol, pw, poly, tw, pts, ilen, i32] =>
+    match floatTok? atol, pw.toNat?, (parseFloatMat? poly).bind pairs?, tw.toNat?, (parseFloatMat? pts).bind pairs?,
+        ilen.toInt? with
+    | some atol, some pw, some poly, some tw, some pts, some ilen =>
+      match pointsInsidePolygonCall atol tw pts pw poly (if ilen < 0 then none else some (i32 == "1", ilen.toNat)) with
+      | .ok l => "ok " ++ bits l
+      | .error e => "err " ++ errName e
+    | _, _, _, _, _, _ => "bad-op"
   | ["pipq", atol, poly, pts] =>
     match floatTok? atol, (parseFloatMat? poly).bind pairs?, (parseFloatMat? pts).bind pairs? with
     | some atol, some poly, some pts =>
@@ -61,9 +72,11 @@ def handle (toks : List String) : String :=
     match nrows.toNat?, ncols.toNat?, floatTok? xll, floatTok? yll, floatTok? csz, floatTok? atol,
         (parseFloatMat? poly).bind pairs? with
     | some nrows, some ncols, some xll, some yll, some csz, some atol, some poly =>
-      match cellsInside nrows ncols xll yll csz atol poly with
-      | .ok l => "ok " ++ fmtNatList l
-      | .error e => "err " ++ errName e
+      match cellsInside nrows ncols xll yll csz atol poly, cellsInsideTable nrows ncols xll yll csz atol poly with
+      | .ok l, .ok tb => "ok " ++ fmtNatList l ++ " " ++
+          fmtList (tb.map fun r => hexOfFloat r.1 ++ ":" ++ hexOfFloat r.2.1 ++ ":" ++ toString r.2.2)
+      | .error e, _ => "err " ++ errName e
+      | _, .error e => "err " ++ errName e
     | _, _, _, _, _, _, _ => "bad-op"
   | ["centres", nrows, ncols, xll, yll, csz] =>
     match nrows.toNat?, ncols.toNat?, floatTok? xll, floatTok? yll, floatTok? csz with
